@@ -47,6 +47,22 @@ def compare(case, res, syntax="scss"):
     li = 2 if syntax == "scss" else 3
     explog = [(o[0], o[1], o[li]) for o in case["out"] if o[0] in ("debug", "warn")]
     gotlog = [(l["kind"], l["msg"], l["line"]) for l in res.get("log", [])]
-    if explog != gotlog:
+    if not deliver_ok(explog, gotlog):
         return "logger deliveries differ: expected %r, got %r" % (explog, gotlog)
     return None
+
+
+def deliver_ok(exp, obs):
+    """Python mirror of Diag.Deliver: every expected delivery arrives in order, except that a @warn may be
+    omitted when the same directive already delivered the same message."""
+    j = 0
+    seen = set()
+    for e in exp:
+        if j < len(obs) and tuple(obs[j]) == tuple(e):
+            j += 1
+        elif e[0] == "warn" and tuple(e) in seen:
+            pass
+        else:
+            return False
+        seen.add(tuple(e))
+    return j == len(obs)
